@@ -1258,6 +1258,10 @@ func (a *alertState) triggered(t time.Time) {
 func (a *alertState) addEvent(t time.Time, level alert.Level) {
 	// Check for changes
 	a.changed = a.history[a.idx] != level
+	if a.history[a.idx] == alert.OK && level != alert.OK {
+		// The alert leaves OK now, whether or not this event gets sent.
+		a.firstTriggered = t
+	}
 
 	// Add event to history
 	a.idx = (a.idx + 1) % len(a.history)
